@@ -69,6 +69,13 @@ func (e *Engine) hashUF(st *State, bs []Value, name string) Agg {
 	} else {
 		h = UF(fmt.Sprintf("%s_%d", name, len(rs)), 256, concatBytes(rs))
 	}
+	// ztyp uses the all-zero root as "hash not cached": real SHA-256 outputs are never zero in practice, and the
+	// model assumes so for the uninterpreted function as well (stated assumption)
+	nz := Not(Cmp("=", h, BVu(0, 256)))
+	if !st.known[nz.id] {
+		st.pc = append(st.pc, nz)
+		st.known[nz.id] = true
+	}
 	for i := range out {
 		out[i] = Extract(h, 255-8*i, 248-8*i)
 	}
